@@ -1179,8 +1179,8 @@ fn alphabet(r: &NArr, wide: bool, ak: AK) -> Vec<Act> {
         for items in lists {
             let ok = strict_valid(&r.shape, &items);
             // the panicking variant is the same code path as try_slice + expect;
-            // it is exercised on every valid list and on invalid lists of length <= 1
-            if ok || len <= 1 || len > rank {
+            // level 1: every valid list and invalid lists of length <= 1; deeper levels: lists of length <= 1
+            if (ok && wide) || len <= 1 || len > rank {
                 v.push(Act::Slice(items.clone()));
             }
             v.push(Act::SliceCopy(items.clone()));
@@ -2341,7 +2341,8 @@ pub fn run(ctx: Ctx) -> ! {
     let mut order: Vec<usize> = (0..jobs.len()).collect();
     order.sort_by_key(|&i| match &jobs[i] {
         Job::Range => (0, 0, i),
-        Job::Chains(s) | Job::Full(s, ..) | Job::Owned(s) => (1 + prod(&s.shape), s.shape.len(), i),
+        // non-empty starts first (smallest first), then empty ones
+        Job::Chains(s) | Job::Full(s, ..) | Job::Owned(s) => (if prod(&s.shape) == 0 { 500 + s.shape.len() } else { prod(&s.shape) }, s.shape.len(), i),
         Job::Big(s) => (1000 + prod(&s.shape), s.shape.len(), i),
     });
     for &i in &order {
@@ -2457,11 +2458,11 @@ pub fn run(ctx: Ctx) -> ! {
         "box": {
             "starts": "every shape of rank<=3 over sizes {0,1,2,3} as: contiguous owned tensor; strided view (step 2, offset 1, axes reversed in memory) of a bigger buffer; owned tensor built with with_capacity+append with one spare slot on the innermost axis",
             "level1_slices": format!("try_slice (+slice when valid, +slice_copy) with every item list of length 1..=rank; per axis Full = {{Index(i): i in -n-1..=n}} + {{a..b;step: a in -n-1..=n+1, b in None|-n-1..=n+1, step in +-1..3}}; rank<=2 and lengths<=2: Full on every axis; rank 3 length 3: {} axes Full x others Mid(13 items) for every choice of axes (slice_copy on the 1-Full profiles)", p.rank3_full_axes),
-            "chain_alphabet": "slice/try_slice/slice_copy item lists of every length 0..=rank+1 over the per-axis alphabet (level 1: Mid 13 items, deeper: Small 6 items, rank>=4: Small), slice_axis (all a<=b<=n + 2 invalid), index_axis (0..=n), split_at (every axis incl. rank, mid 0..=n+1, both halves), every permutation (+3 invalid), transposed, move_axis (0..=rank)^2, insert_axis 0..=rank+1, remove_axis 0..=rank, merge_axes, squeezed, broadcast/try_broadcast to every shape of rank<=3 (level 1: <=4) over {0,1,2,3}, reshaped/to_shape to every ordered factorisation of len with rank<=3 (level 1: <=4) + all shapes of rank<=2 over {0..3}, to_contiguous, to_tensor, map",
+            "chain_alphabet": "try_slice/slice_copy (+slice: level 1 every valid list, all levels lists of length<=1 and the too-long list) item lists of every length 0..=rank+1 over the per-axis alphabet (level 1: Mid 13 items, deeper: Small 6 items, rank>=4: Small), slice_axis (all a<=b<=n + 2 invalid), index_axis (0..=n), split_at (every axis incl. rank, mid 0..=n+1, both halves), every permutation (+3 invalid), transposed, move_axis (0..=rank)^2, insert_axis 0..=rank+1, remove_axis 0..=rank, merge_axes, squeezed, broadcast/try_broadcast to every shape of rank<=3 (level 1: <=4) over {0,1,2,3}, reshaped/to_shape to every ordered factorisation of len with rank<=3 (level 1: <=4) + all shapes of rank<=2 over {0..3}, to_contiguous, to_tensor, map",
             "chain_depth": p.view_depth,
             "chain_depth_spare_variant": p.spare_depth,
             "chains_continue_from_copies": p.recurse_from_copies,
-            "owned": format!("starts: contiguous, column-major owned, with_capacity(shape, axis)+append(first k) for every axis and k in {{0, n-1}}; histories of depth {} over permute (all + invalid), transpose, move_axis, insert_axis, remove_axis, merge_axes, clip_dim (all a<=b<=n + 2 invalid), append (every axis incl. rank; other of size 0,1,2 contiguous and column-major; 3 incompatible others), reshape/into_shape (every factorisation rank<=3 + rank<=1 shapes), make_contiguous{}", p.owned_depth, if p.owned_view_level { "; one level of the Small view alphabet on every owned state" } else { "" }),
+            "owned": format!("starts: contiguous, column-major owned, with_capacity(shape, axis)+append(first k) for every axis and k in {{0, n-1}}; histories of depth {} over permute (all + invalid), transpose, move_axis, insert_axis, remove_axis, merge_axes, clip_dim (all a<=b<=n + 2 invalid), append (every axis incl. rank; other of size 0,1,2 contiguous and column-major; 3 incompatible others), reshape/into_shape (every factorisation rank<=3 + rank<=1 shapes), make_contiguous{}{}", p.owned_depth, if p.owned_depth >= 3 { "; below level 1 the reduced owned alphabet: non-identity permutes, transpose, make_contiguous, clip_dim (all proper + 2 invalid), append 0/1/2 entries contiguous + 1 entry column-major + 1 incompatible per axis + axis==rank, reshape to factorisations of rank<=2" } else { "" }, if p.owned_view_level { "; one level of the Small view alphabet on every owned state reached by 1 action" } else { "" }),
             "range": format!("SliceRange::steps/resolve/resolve_clamped for n<= {}, start,end in -n-2..=n+2 (+None), step in +-1..3", p.range_max_n),
             "big": big_specs().iter().map(|s| format!("{} {:?}", s.variant, s.shape)).collect::<Vec<_>>(),
         },
